@@ -104,6 +104,7 @@ func (e *Engine) RunRoot(fn *ssa.Function) (err error) {
 	if fr.contract != nil {
 		e.checkIfaceCallsOnly(s, fn, fr.contract)
 		e.checkDirectCallsOnly(s, fn, fr.contract)
+		e.checkGuarded(s, fn, fr.contract)
 		if fr.contract.Flags["frame_only"] != "" && fr.contract.Flags["never_writes"] == "" {
 			return nil
 		}
@@ -449,6 +450,12 @@ func (e *Engine) step(s *State, fr *Frame, in ssa.Instruction) ([]*State, bool) 
 	case *ssa.RunDefers:
 		return e.execRunDefers(s, fr, x)
 	case *ssa.Go:
+		if fr.contract != nil && fr.contract.Flags["go_inline"] != "" {
+			// opt-in fork/join model (bmain.go): the spawned closure runs to completion at the spawn point
+			if succ, done, ok := e.goInline(s, fr, x); ok {
+				return succ, done
+			}
+		}
 		e.abstract(fmt.Sprintf("goroutine spawned at %s: body not part of the spawning function's contract", posString(e.fset, x.Pos())))
 		return nil, false
 	case *ssa.Jump:
